@@ -119,3 +119,15 @@ pub(crate) fn lock_hook<'a, T>(mutex: &'a Mutex<T>) -> Option<MutexGuard<'a, T>>
         }
     }
 }
+
+/// Pointer and length of an [`IoSlice`](crate::io::IoSlice).
+pub fn io_slice_parts(slice: &crate::io::IoSlice) -> (*const u8, usize) {
+    // SAFETY: only reading the pointer value, not dereferencing it.
+    (unsafe { slice.ptr() }, slice.len())
+}
+
+/// Pointer and length of an [`IoMutSlice`](crate::io::IoMutSlice).
+pub fn io_mut_slice_parts(slice: &crate::io::IoMutSlice) -> (*const u8, usize) {
+    // SAFETY: only reading the pointer value, not dereferencing it.
+    (unsafe { slice.ptr() }, slice.len())
+}
